@@ -478,7 +478,7 @@ func (s c17BFSuite) Gen(rng *Rng, tier string, w *bufio.Writer, stats *Stats) {
 		n := strings.Count(sh, "(")
 		for workers := 1; workers <= 3; workers++ {
 			emit(sh, workers, "none", 0, "lit")
-			for _, f := range []string{"err", "cancel", "mem"} {
+			for _, f := range []string{"err", "cancel", "mem", "swallow", "cswallow"} {
 				for k := 0; k <= n; k++ {
 					// the memory limit armed mid-run is schedule independent only with one worker
 					if (f == "mem" && workers > 1 && k > 0) || (f != "mem" && k == 0) {
@@ -504,13 +504,17 @@ func (s c17BFSuite) Gen(rng *Rng, tier string, w *bufio.Writer, stats *Stats) {
 		if rng.Chance(1, 3) {
 			mode = "descend"
 		}
-		switch x := rng.Intn(10); {
+		switch x := rng.Intn(12); {
 		case x < 5:
 			emit(shape, workers, "none", 0, mode)
 		case x < 7:
 			emit(shape, workers, "err", 1+rng.Intn(size+1), mode)
 		case x < 9:
 			emit(shape, workers, "cancel", 1+rng.Intn(size+1), mode)
+		case x < 10:
+			emit(shape, workers, "swallow", 1+rng.Intn(size+1), mode)
+		case x < 11:
+			emit(shape, workers, "cswallow", 1+rng.Intn(size+1), mode)
 		default:
 			if workers == 1 || rng.Chance(1, 2) {
 				emit(shape, 1, "mem", rng.Intn(size+1), mode)
@@ -580,7 +584,7 @@ func (t *c17Tx) GraphQueryMemoryLimit() size.Size { return size.Size(t.limit.Loa
 // a later Receive exists.
 func c17FaultHits(fault string, k, size int) bool {
 	switch fault {
-	case "err", "cancel", "swallow":
+	case "err", "cancel", "swallow", "cswallow":
 		return k >= 1 && k <= size
 	case "mem":
 		return k < size
@@ -599,7 +603,17 @@ type c17BFRunner struct {
 
 func (s c17BFSuite) NewRunner(stats *Stats) Runner { return &c17BFRunner{trace: s.trace, stats: stats} }
 
-var c17Hangs atomic.Int64 // process-wide: after a few hangs stop paying the detector's price
+// c17Hangs counts hangs seen by this process. The first three are established with the full quiescence
+// window; after that the run is failing anyway (a healthy tree never hangs once) and the window shrinks so
+// that the remaining cases are still executed and reported, not skipped.
+var c17Hangs atomic.Int64
+
+func c17QuietWindow() (int, time.Duration) {
+	if c17Hangs.Load() >= 3 {
+		return 6, 300 * time.Millisecond
+	}
+	return 80, c17QuietTimeout
+}
 
 func (r *c17BFRunner) Step(t []string, raw string) string {
 	switch {
@@ -618,12 +632,9 @@ func (r *c17BFRunner) Step(t []string, raw string) string {
 			return "bad-op"
 		}
 		switch t[2] {
-		case "none", "err", "cancel", "mem", "swallow":
+		case "none", "err", "cancel", "mem", "swallow", "cswallow":
 		default:
 			return "bad-op"
-		}
-		if c17Hangs.Load() >= 6 {
-			return "ret=skipped-after-hangs"
 		}
 		return r.run(workers, t[2], k, uint64(seed), t[5])
 	}
@@ -672,6 +683,14 @@ func (r *c17BFRunner) run(workers int, fault string, k int, seed uint64, mode st
 			case "err":
 				return nil, fmt.Errorf("segment %d: %w", id, errC17Boom)
 			case "swallow":
+				// a cancellation-class error of the driver's own while the traversal context is live
+				if id%2 == 0 {
+					return nil, fmt.Errorf("segment %d: %w", id, context.Canceled)
+				}
+				return nil, fmt.Errorf("segment %d: %w", id, graph.ErrContextTimedOut)
+			case "cswallow":
+				// the caller's context is cancelled first: now the same error is an expected one
+				cancel()
 				return nil, fmt.Errorf("segment %d: %w", id, context.Canceled)
 			case "cancel":
 				cancel()
@@ -733,7 +752,7 @@ wait:
 			} else {
 				quietSince, quietTicks = la, 0
 			}
-			if quietTicks >= 80 && time.Since(time.Unix(0, quietSince)) > c17QuietTimeout {
+			if needTicks, needQuiet := c17QuietWindow(); quietTicks >= needTicks && time.Since(time.Unix(0, quietSince)) > needQuiet {
 				hang = true
 			}
 		}
@@ -768,6 +787,9 @@ wait:
 	case res.err == nil:
 	case errors.Is(res.err, errC17Boom):
 		ret = "err"
+	case fault == "swallow" && (errors.Is(res.err, context.Canceled) || errors.Is(res.err, graph.ErrContextTimedOut)):
+		ret = "err"
+		r.stats.Inc("branch.bf.ctx_class_error_reported")
 	case errors.Is(res.err, ops.ErrGraphQueryMemoryLimit):
 		ret = "err"
 		r.stats.Inc("branch.bf.memlimit")
